@@ -89,7 +89,8 @@ def suite_c12(r, n):
         side = r.pick(["req", "req", "rep", "rep", "exc", "none", "oneway", "direct"])
         # the limit falls short by a byte, a few bytes, or ANYWHERE inside the message (p% of its size: the
         # write that overflows is then the header, a field before, inside or after the nested big part)
-        near = lambda: r.pick([-1, -2, -8, 0, 0, 1, 8, N] + ["-%d%%" % (1 + r.intn(92)) for _ in range(6)])
+        BIG = [2**15 * 4, 2**31 - 1, 2**31, 2**31 + 1, 2**32 - 1, 2**32, 2**40, 2**63 - 1, 2**63, 2**64 - 1]   # the limit VALUE (uint): all far above
+        near = lambda: r.pick([-1, -2, -8, 0, 0, 1, 8, N, "=%d" % r.pick(BIG)] + ["-%d%%" % (1 + r.intn(92)) for _ in range(6)])
         dq, dr = "x", "x"
         if side == "direct":          # control: a direct string / binary argument or a string result
             mname, where = "echo", r.pick(["arg.s", "arg.b", "ret"])
@@ -164,8 +165,8 @@ def suite_c12(r, n):
     for (style, proto, mname, side, where, dq, dr, follow, want_main, wcalls, wsent, want_next, want_nextcalls), real in zip(meta, res):
         Stat("evaluations")
         for t in ("style:" + style, "proto:" + proto, "method:" + mname, "side:" + side, "where:" + re.sub(r"\[\d\]", "[]", where),
-                  "dq:" + ("none" if dq == "x" else "over-anywhere" if str(dq).endswith("%") else "over" if dq < 0 else "=" if dq == 0 else "within"),
-                  "dr:" + ("none" if dr == "x" else "over-anywhere" if str(dr).endswith("%") else "over" if dr < 0 else "=" if dr == 0 else "within")): Stat(t)
+                  "dq:" + ("none" if dq == "x" else "value" if str(dq).startswith("=") else "over-anywhere" if str(dq).endswith("%") else "over" if dq < 0 else "=" if dq == 0 else "within"),
+                  "dr:" + ("none" if dr == "x" else "value" if str(dr).startswith("=") else "over-anywhere" if str(dr).endswith("%") else "over" if dr < 0 else "=" if dr == 0 else "within")): Stat(t)
         for fl in follow: Stat("follow:" + fl)
         case = "%s %s %s big@%s dq=%s dr=%s follow=%s" % (style, proto, mname, where, dq, dr, ",".join(follow))
         m = re.match(r"Qs=(\d+) Rs=(\d+) Q=(\d+) R=(\d+) E=(\d+) q=(\d+) r=(\d+) main=(.*) calls=(\d+) sent=([yn]) next=(\S*) nextcalls=(\d+)$", real or "no-result", re.S)
